@@ -60,7 +60,7 @@ manifest = {
  "engines": ENGINES,
  "checks": [CHECKS[i] for i in ids if i in CHECKS],
  "not_applicable": [{"property_id": i, "reason": NA.get(i, NOT_BUILT)} for i in ids if i not in CHECKS],
- "notes": "Technique family: deterministic simulation with fault injection (DESIGN.md). Every check = seeded search over schedules and fault sequences; one VERIF_SEED is one repeatable batch; failures are minimised and written as replay files under /verif/replays; known findings in /verif/known_findings.json.",
+ "notes": "Technique family: deterministic simulation with fault injection (DESIGN.md). Every check = seeded search over schedules and fault sequences; one VERIF_SEED is one repeatable batch; failures are minimised and written as replay files under /verif/replays; known findings in /verif/known_findings.json (at present: eleven fixed entries, no open one). Each check runs in a child process under a guard, so that code under test which overflows the stack, aborts or spins without a scheduling point yields a VIOLATION with a (process-level) replay file instead of a dead check. tools/regress_mutants.sh re-runs every stored property-breaking change (seeded/, tools/mutants/) against its check; tools/benign/ holds property-preserving changes that must stay silent.",
 }
 path = os.path.join(here, "MANIFEST.json")
 json.dump(manifest, open(path, "w"), indent=1)
